@@ -63,7 +63,11 @@ impl Package {
 
     /// Write the RPM package to a file
     pub fn write_file(&self, path: impl AsRef<Path>) -> Result<(), Error> {
-        self.write(&mut io::BufWriter::new(fs::File::create(path)?))
+        let mut out = io::BufWriter::new(fs::File::create(path)?);
+        self.write(&mut out)?;
+        // a BufWriter that is merely dropped swallows the error of its final flush
+        io::Write::flush(&mut out)?;
+        Ok(())
     }
 
     /// Iterate over the file contents of the package payload
